@@ -80,3 +80,28 @@ REGISTRY.update({
         "note": _NOTE + "numpy/scipy C code gives no coverage gradient, so no coverage-guided stage; generators target the documented thresholds instead.",
     },
 })
+
+REGISTRY.update({
+    "C04": {
+        "level": "Every pixel of images produced through the public API (all kernel classes incl. all four correlation regimes, all weight classes, points "
+                 "inside / on borders / on pixel corners / outside, both input forms) is compared with an independently integrated kernel mass of the "
+                 "pixel square located from the public ranges; a second clause pins the (birth, persistence) axis convention on non-square grids.",
+        "technique": "property-based testing (Hypothesis) against an independent numerical-integration reference (differential)",
+        "note": _NOTE + "Resolution <= 8x8 and |r| <= 0.99 are cost bounds of the reference quadrature; grids are exact multiples so that C12's concern stays separate.",
+    },
+    "C11": {
+        "level": "Metamorphic relations between runs on generated configurations and collections: additivity, permutation invariance, zero-weight points, "
+                 "empty diagrams, single-vs-collection, serial-vs-parallel for n_jobs in {1,2,3,4,-1}, birth-death vs pre-converted input, pixel sign and total mass.",
+        "technique": "property-based testing (Hypothesis): metamorphic / differential relations between call styles",
+        "note": _NOTE + "loky scheduling is not controllable: agreement is established for every n_jobs value and collection shape tried, and rests on the per-diagram function being pure (C19).",
+    },
+    "C12": {
+        "level": "Model-based histories: constructor arguments plus up to 20 generated operations (range / pixel-size assignments, fits) are interpreted "
+                 "against the real object; a geometry invariant observable through the public API is evaluated after construction and after every "
+                 "operation and a containment / at-most-one-pixel post-condition after the operation it concerns; an exhaustive table of awkward "
+                 "decimals x multipliers covers the constructor and each setter. Exploration over histories is the right level: the state space "
+                 "(real-valued ranges) is infinite, but inexact quotients are reached by construction in > 30 % of histories.",
+        "technique": "model-based / stateful property testing (generated operation histories, invariant after every step) + exhaustive decimal table",
+        "note": _NOTE + "Resolution kept <= 200 per axis (cost bound); histories are JSON op lists interpreted step by step rather than a Hypothesis RuleBasedStateMachine so that the replay file is the history itself.",
+    },
+})
